@@ -11,6 +11,7 @@ import (
 	"google.golang.org/protobuf/proto"
 	"pgregory.net/rapid"
 
+	aeadsubtle "github.com/tink-crypto/tink-go/v2/aead/subtle"
 	"github.com/tink-crypto/tink-go/v2/hybrid/ecies"
 	"github.com/tink-crypto/tink-go/v2/hybrid/hpke"
 	"github.com/tink-crypto/tink-go/v2/insecurecleartextkeyset"
@@ -76,6 +77,9 @@ func collect(path string, v reflect.Value, depth int, seen map[reflect.Type]bool
 		m := t.Method(i)
 		mt := m.Type
 		if mt.NumIn() != 1 || mt.NumOut() < 1 || mt.NumOut() > 2 {
+			if mt.NumOut() > 0 && (mt.Out(0) == bytesType || mt.Out(0) == secretType) {
+				evid.Add("accessor_walk/not_called/takes_arguments_or_three_results/"+t.String()+"."+m.Name, 1)
+			}
 			continue
 		}
 		switch m.Name {
@@ -93,17 +97,28 @@ func collect(path string, v reflect.Value, depth int, seen map[reflect.Type]bool
 				sb := mv.Call(nil)[0].Interface().(secretdata.Bytes)
 				return sb.Data(insecuresecretdataaccess.Token{})
 			}})
+		case (rt == bytesType || rt == secretType) && mt.NumOut() == 2:
+			// ([]byte, error) / (secretdata.Bytes, error): not walked (none on the present key types)
+			evid.Add("accessor_walk/not_called/bytes_with_second_result/"+t.String()+"."+m.Name, 1)
 		case rt.Kind() == reflect.Ptr || rt.Kind() == reflect.Interface || rt.Kind() == reflect.Struct:
 			if rt == bigIntType || rt.PkgPath() == "time" {
+				evid.Add("accessor_walk/not_followed/bigint_or_time", 1)
 				continue
 			}
 			if rt.NumMethod() == 0 {
+				evid.Add("accessor_walk/not_followed/result_without_methods", 1)
 				continue
 			}
 			func() {
-				defer func() { _ = recover() }() // an accessor that panics on this key shape is not this unit's concern
+				defer func() {
+					// an accessor that panics on this key shape is not this unit's concern: counted
+					if r := recover(); r != nil {
+						evid.Add("accessor_walk/panic_recovered/"+t.String()+"."+m.Name, 1)
+					}
+				}()
 				res := mv.Call(nil)
 				if len(res) == 2 && res[1].Kind() == reflect.Interface && !res[1].IsNil() {
+					evid.Add("accessor_walk/not_followed/error_result", 1)
 					return // (value, error) with error set
 				}
 				collect(p, res[0], depth+1, seen, out)
@@ -136,8 +151,8 @@ func serialized(k key.Key) []byte {
 }
 
 func drawAnyKey(rt *rapid.T) *keys.Info {
-	c := rapid.SampledFrom(keys.Classes()).Draw(rt, "class")
-	return keys.Draw(rt, "key", c)
+	c := gen.Pick(rt, "class", keys.Classes())
+	return keys.DrawType(rt, "key", gen.Pick(rt, "key_type", weightedTypes(c, false)))
 }
 
 func knownOrFail(rt *rapid.T, sig, msg string) {
@@ -156,6 +171,14 @@ func TestKeyAccessorsReturnCopies(t *testing.T) {
 	rapid.Check(t, func(rt *rapid.T) {
 		detrand.Seed(rapid.Uint64().Draw(rt, "entropy"))
 		info := drawAnyKey(rt)
+		// a twin built a second time from the material the key was generated from (compared at the end:
+		// comparing the key with itself says nothing)
+		twin, hasTwin := info.WithVariantID(info.Variant, info.ID)
+		if !hasTwin {
+			evid.Add("accessors/no_twin/"+info.Type, 1)
+		} else if !info.Key.Equal(twin.Key) || !twin.Key.Equal(info.Key) {
+			rt.Fatalf("harness: %s: a key built twice from the same material is not Equal to its twin", info.Desc)
+		}
 		accs := accessorsOf(info)
 		if len(accs) == 0 {
 			evid.Case("accessors/none/"+info.Type, false, 0, nil)
@@ -190,8 +213,13 @@ func TestKeyAccessorsReturnCopies(t *testing.T) {
 				rt.Fatalf("%s: serialization of the public key changed after mutating accessor results", info.Desc)
 			}
 		}
-		if !info.Key.Equal(info.Key) {
-			rt.Fatalf("%s: key no longer Equal to itself", info.Desc)
+		if hasTwin {
+			if !info.Key.Equal(twin.Key) || !twin.Key.Equal(info.Key) {
+				rt.Fatalf("%s: after the caller flipped the bytes handed out by the key's accessors the key is no longer Equal to a twin built from the same material", info.Desc)
+			}
+			if info.Public != nil && twin.Public != nil && (!info.Public.Equal(twin.Public) || !twin.Public.Equal(info.Public)) {
+				rt.Fatalf("%s: after the caller flipped the bytes handed out by the accessors the public key is no longer Equal to a twin built from the same material", info.Desc)
+			}
 		}
 		evid.Add("accessor_calls", int64(n))
 		evid.Case("accessors/"+info.Type, true, evid.NewH().S(info.Desc).Sum(), func() any {
@@ -233,8 +261,21 @@ func TestParsersAndSerializersDoNotAlias(t *testing.T) {
 			rt.Fatalf("%s: ParseKey of its own serialization: %v", info.Desc, err)
 		}
 		p.verify("ParseKey")
+		// the reference is a key parsed from a pristine copy that nobody touches (not the generated key:
+		// whether parsing gives back an Equal key is C12's, and known not to hold for every type)
+		refKD := &tinkpb.KeyData{TypeUrl: kd.GetTypeUrl(), KeyMaterialType: kd.GetKeyMaterialType(), Value: bytes.Clone(kd.GetValue())}
+		kRef, err := protoserialization.ParseKey(tk.Must(protoserialization.NewKeySerialization(refKD, ks.OutputPrefixType(), idReq)))
+		if err != nil {
+			rt.Fatalf("%s: ParseKey of its own serialization: %v", info.Desc, err)
+		}
+		if !k2.Equal(kRef) {
+			rt.Fatalf("harness: %s: two keys parsed from copies of one serialization are not Equal", info.Desc)
+		}
+		if !k2.Equal(k) {
+			evid.Add("observed_not_asserted/C12_parsed_key_not_equal_to_original/"+info.Type, 1)
+		}
 		p.scribble() // the caller reuses the buffer the proto was decoded from
-		if !k2.Equal(k) || !bytes.Equal(serialized(k2), pristine) {
+		if !k2.Equal(kRef) || !bytes.Equal(serialized(k2), pristine) {
 			knownOrFail(rt, "parser-aliasing:"+info.Type,
 				fmt.Sprintf("%s: key parsed from a KeyData whose value buffer the caller later overwrote is no longer Equal to the original (parser kept a sub-slice of its input)", info.Desc))
 		}
@@ -321,7 +362,7 @@ func rebuildPublic(p *probe, pub key.Key) (key.Key, string, error) {
 func TestConstructorsCopyInputs(t *testing.T) {
 	rapid.Check(t, func(rt *rapid.T) {
 		detrand.Seed(rapid.Uint64().Draw(rt, "entropy"))
-		kind := rapid.SampledFrom([]string{"public", "public", "public", "secretdata", "hkdfprf-salt"}).Draw(rt, "kind")
+		kind := gen.Pick(rt, "kind", []string{"public", "public", "public", "secretdata", "hkdfprf-salt", "ecies-salt"})
 		switch kind {
 		case "secretdata":
 			p := &probe{t: rt, desc: "secretdata.NewBytesFromData"}
@@ -355,10 +396,32 @@ func TestConstructorsCopyInputs(t *testing.T) {
 				knownOrFail(rt, "ctor-aliasing:hkdfprf.NewParameters:salt", "hkdfprf.NewParameters keeps the caller's salt slice: overwriting it afterwards changed the parameters object")
 			}
 			finish(p, "ctor/hkdfprf-salt", evid.NewH().B(salt).Sum(), map[string]any{"salt_len": len(salt)})
+		case "ecies-salt":
+			// ecies.NewParameters(ParametersOpts{Salt}): the parameters of a generated ECIES key, rebuilt
+			// with a salt that lives in a caller buffer
+			info := keys.DrawType(rt, "key", "EciesAeadHkdf")
+			src := info.Public.Parameters().(*ecies.Parameters)
+			p := &probe{t: rt, desc: "ecies.NewParameters(salt) from " + info.Desc}
+			salt := rapid.SliceOfN(rapid.Byte(), 1, 60).Draw(rt, "salt")
+			opts := ecies.ParametersOpts{CurveType: src.CurveType(), HashType: src.HashType(), NISTCurvePointFormat: src.NISTCurvePointFormat(), DEMParameters: src.DEMParameters(), Variant: src.Variant()}
+			opts.Salt = p.in("salt", salt)
+			params, err := ecies.NewParameters(opts)
+			if err != nil {
+				rt.Fatalf("%s: %v", p.desc, err)
+			}
+			opts.Salt = bytes.Clone(salt)
+			twin := tk.Must(ecies.NewParameters(opts))
+			p.verify("NewParameters")
+			p.scribble()
+			if !params.Equal(twin) || !bytes.Equal(params.Salt(), salt) {
+				knownOrFail(rt, "ctor-aliasing:ecies.NewParameters:salt", fmt.Sprintf("%s: ecies.NewParameters keeps the caller's salt slice: overwriting it afterwards changed the parameters object (Salt() = %x, built with %x)", p.desc, params.Salt(), salt))
+			}
+			finish(p, "ctor/ecies-salt/"+src.CurveType().String(), evid.NewH().S(info.Desc).B(salt).Sum(), map[string]any{"salt_len": len(salt), "from": info.Desc})
 		default:
-			c := rapid.SampledFrom([]keys.Class{keys.Signature, keys.Hybrid, keys.JWTSignature}).Draw(rt, "class")
-			info := keys.Draw(rt, "key", c)
+			c := gen.Pick(rt, "class", []keys.Class{keys.Signature, keys.Hybrid, keys.JWTSignature})
+			info := keys.DrawType(rt, "key", gen.Pick(rt, "key_type", weightedTypes(c, false)))
 			if info.Public == nil {
+				evid.Add("skipped/no_public_key/"+info.Type, 1)
 				rt.Skip("no public key")
 			}
 			p := &probe{t: rt, desc: info.Desc}
@@ -395,8 +458,8 @@ func TestKeysetProtoDoesNotAlias(t *testing.T) {
 		usePublic := false
 		if rapid.IntRange(0, 2).Draw(rt, "fallback") == 0 {
 			// a key type without registered proto parser: the fallback key and its serializers
-			url := rapid.SampledFrom([]string{legacykm.MacURL, legacykm.AeadURL, legacykm.SignerURL, legacykm.VerifierURL, legacykm.HybridPrivURL, legacykm.HybridPubURL, legacykm.RemoteURL, legacykm.UnknownMatURL}).Draw(rt, "url")
-			pt := rapid.SampledFrom(prefixTypes).Draw(rt, "prefixtype")
+			url := gen.Pick(rt, "url", []string{legacykm.MacURL, legacykm.AeadURL, legacykm.SignerURL, legacykm.VerifierURL, legacykm.HybridPrivURL, legacykm.HybridPubURL, legacykm.RemoteURL, legacykm.UnknownMatURL})
+			pt := gen.Pick(rt, "prefixtype", prefixTypes)
 			id := gen.KeyID(rt, "id") | 1
 			val := gen.BytesN(rt, "value", 32)
 			ks := &tinkpb.Keyset{PrimaryKeyId: id, Key: []*tinkpb.Keyset_Key{legacykm.Key(url, val, legacykm.Material(url), pt, id, tinkpb.KeyStatusType_ENABLED)}}
@@ -456,10 +519,88 @@ func TestKeysetProtoDoesNotAlias(t *testing.T) {
 			kk.Status = tinkpb.KeyStatusType_DISABLED
 		}
 		src.PrimaryKeyId ^= 1
+		// the reference: a handle read from a pristine copy that nobody touches (not the generated key:
+		// whether reading gives back an Equal key is C12's)
+		readRef := func() key.Key {
+			var hr *keyset.Handle
+			var err error
+			if usePublic {
+				hr, err = keyset.NewHandleWithNoSecrets(proto.Clone(pristine).(*tinkpb.Keyset))
+			} else {
+				hr, err = insecurecleartextkeyset.Read(&keyset.MemReaderWriter{Keyset: proto.Clone(pristine).(*tinkpb.Keyset)})
+			}
+			if err != nil {
+				rt.Fatalf("%s: reading back its own keyset: %v", info.Desc, err)
+			}
+			return tk.Must(hr.Primary()).Key()
+		}
+		kRef := readRef()
+		if !kRef.Equal(k) {
+			evid.Add("observed_not_asserted/C12_read_key_not_equal_to_original/"+info.Type, 1)
+		}
 		e, err := h2.Primary()
-		if err != nil || !e.Key().Equal(k) || !proto.Equal(insecurecleartextkeyset.KeysetMaterial(h2), pristine) {
+		if err != nil || !e.Key().Equal(kRef) || !proto.Equal(insecurecleartextkeyset.KeysetMaterial(h2), pristine) {
 			knownOrFail(rt, "keyset-aliasing:handle-from-proto:"+info.Type, fmt.Sprintf("%s: mutating the proto a handle was built from changed the handle (public route=%v)", info.Desc, usePublic))
 		}
-		evid.Case("keyset/"+info.Type, true, evid.NewH().S(info.Desc).I(int64(len(pristine.GetKey()))).Sum(), func() any { return map[string]any{"key": info.Desc, "public": usePublic} })
+		// 3. the serialized forms: Write... hands the keyset to a writer, Read... decodes the bytes the
+		// caller holds in its own buffer: neither writes into the caller's associated data or serialized
+		// bytes, and the handle read shares nothing with the buffer it was decoded from.
+		p := &probe{t: rt, desc: info.Desc}
+		format := gen.Pick(rt, "format", []string{"binary", "json"})
+		route := "no-secrets"
+		if !usePublic {
+			route = gen.Pick(rt, "io_route", []string{"associated-data", "cleartext"})
+		}
+		var out bytes.Buffer
+		var w keyset.Writer = keyset.NewBinaryWriter(&out)
+		if format == "json" {
+			w = keyset.NewJSONWriter(&out)
+		}
+		masterKey := gen.BytesN(rt, "masterkey", 32)
+		master := tk.Must(aeadsubtle.NewAESGCM(masterKey))
+		ad := gen.BytesOrNil(rt, "keyset_ad", 40)
+		switch route {
+		case "no-secrets":
+			err = h.WriteWithNoSecrets(w)
+		case "cleartext":
+			err = insecurecleartextkeyset.Write(h, w)
+		default:
+			err = h.WriteWithAssociatedData(w, master, p.in("associated data (write)", ad))
+		}
+		if err != nil {
+			rt.Fatalf("%s: writing the keyset (%s, %s): %v", info.Desc, route, format, err)
+		}
+		p.verify("Write")
+		stored := p.in("serialized keyset", out.Bytes())
+		newReader := func() keyset.Reader {
+			if format == "json" {
+				return keyset.NewJSONReader(bytes.NewReader(stored))
+			}
+			return keyset.NewBinaryReader(bytes.NewReader(stored))
+		}
+		var h3 *keyset.Handle
+		switch route {
+		case "no-secrets":
+			h3, err = keyset.ReadWithNoSecrets(newReader())
+		case "cleartext":
+			h3, err = insecurecleartextkeyset.Read(newReader())
+		default:
+			_, errBad := keyset.ReadWithAssociatedData(newReader(), master, p.in("other associated data", append(bytes.Clone(ad), 1)))
+			failing(errBad)
+			p.verify("ReadWithAssociatedData(other associated data)")
+			h3, err = keyset.ReadWithAssociatedData(newReader(), master, p.in("associated data (read)", ad))
+		}
+		if err != nil {
+			rt.Fatalf("%s: reading back the keyset just written (%s, %s, master key %x, associated data %x): %v", info.Desc, route, format, masterKey, ad, err)
+		}
+		p.verify("Read")
+		p.scribble() // the caller reuses the buffer that held the serialized keyset, and its associated data
+		e3, err := h3.Primary()
+		if err != nil || !e3.Key().Equal(kRef) || !proto.Equal(insecurecleartextkeyset.KeysetMaterial(h3), pristine) {
+			knownOrFail(rt, "keyset-aliasing:handle-from-bytes:"+info.Type, fmt.Sprintf("%s: a handle read (%s, %s) from bytes in a caller buffer changed when the caller overwrote that buffer", info.Desc, route, format))
+		}
+		evid.Case("keyset/"+info.Type+"/"+route+"/"+format, true, evid.NewH().S(info.Desc).I(int64(len(pristine.GetKey()))).S(route).S(format).Sum(), func() any {
+			return map[string]any{"key": info.Desc, "public": usePublic, "io_route": route, "format": format}
+		})
 	})
 }
